@@ -47,8 +47,8 @@ def run(tier, seed, replay=None):
     ck.cov["schedules_rule"] = ("family 'scoped' of the Subscriber schedules (gate scheduler): explicit syncs carrying their own block hook queue up behind announce-triggered syncs "
                                 "and behind each other for the same publisher; TLC validates on the trace (SubscriberTrace.tla) that every block-hook call is made by the sync "
                                 "holding the publisher's lock and goes to the hook of that very sync")
-    ck.cov["rule"] = ("one real sync per exported configuration: real ad / entry-chunk chain, real ipnisync.Publisher (alternating plain-HTTP mount and "
-                      "libp2p-HTTP discovery) whose read opener logs every block served, real Subscriber with exactly the configured options, pre-stored "
+    ck.cov["rule"] = ("one real sync per exported configuration: real ad / entry-chunk chain, real ipnisync.Publisher (in rotation: plain-HTTP mount, "
+                      "libp2p-HTTP discovery, HTTP over libp2p streams between two libp2p hosts) whose read opener logs every block served, real Subscriber with exactly the configured options, pre-stored "
                       "blocks and latest-synced value; compared: hook sequence, set of served blocks, stored blocks, returned head, latest-synced, "
                       "notifications (collected until the listener channel closes); non-trivial = more than one block reported or segmented")
     ck.cov["exhaustive"] = tier == "thorough"
